@@ -245,12 +245,32 @@ congruence<Number>::operator&(const congruence<Number> &o) const {
     // pre: a and o.a != 0
     Number x = gcd(m_a, o.m_a);
     if (m_b % x == (o.m_b % x)) {
-      // the part max(b,o.b) needs to be verified. What we really
-      // want is to find b'' such that
-      // 1) b'' % lcm(a,a') == b  % lcm(a,a'), and
-      // 2) b'' % lcm(a,a') == b' % lcm(a,a').
-      // An algorithm for that is provided in Granger'89.
-      return congruence<Number>(lcm(m_a, o.m_a), max(m_b, o.m_b));
+      // Chinese remainder theorem: we need b'' such that
+      // 1) b'' % a  == b  and
+      // 2) b'' % a' == b'
+      // We look for b'' = b + a*k, that is, a*k == b' - b (mod a').
+      // Dividing by x = gcd(a,a'): a1*k == d (mod a2) with a1 and a2
+      // coprime, so k = d * a1^{-1} (mod a2).
+      Number a1 = m_a / x;
+      Number a2 = o.m_a / x;
+      Number d = (o.m_b - m_b) / x;
+      // inverse of a1 modulo a2 by the extended Euclidean algorithm
+      Number t(0), new_t(1), r(a2), new_r(a1 % a2);
+      while (new_r != 0) {
+        Number q = r / new_r;
+        Number tmp_t = t - q * new_t;
+        t = new_t;
+        new_t = tmp_t;
+        Number tmp_r = r - q * new_r;
+        r = new_r;
+        new_r = tmp_r;
+      }
+      // here r == 1 unless a2 == 1 (then any k works and t == 0)
+      Number k = (d * t) % a2;
+      if (k < 0) {
+        k = k + a2;
+      }
+      return congruence<Number>(lcm(m_a, o.m_a), m_b + m_a * k);
     } else {
       return congruence<Number>::bottom();
     }
